@@ -1,6 +1,7 @@
 package props
 
 import (
+	"runtime"
 	"bytes"
 	"fmt"
 
@@ -49,6 +50,9 @@ func roundTripValid(api string, b *roaring.Bitmap) *ev.Fail {
 	if !r1.Equals(b) || !r2.Equals(b) || !r3.Equals(b) {
 		return fail("roundtrip", "equals", "a round trip of a library-made bitmap is not Equal to it after %s", api)
 	}
+	// the views alias data / fz; a frozen view does not keep its buffer alive by itself
+	runtime.KeepAlive(data)
+	runtime.KeepAlive(fz)
 	return nil
 }
 
